@@ -773,6 +773,17 @@ def _resolve_action_conflicts(
                 head_groups.update({flow_state.loop_id: [head]})
 
         for group in head_groups.values():
+            # The flows of some heads can have been aborted while the conflicts of a
+            # previous group were resolved: these heads no longer compete
+            group = [
+                head
+                for head in group
+                if is_active_flow(get_flow_state_from_head(state, head))
+                and head.status == FlowHeadStatus.ACTIVE
+            ]
+            if len(group) == 0:
+                continue
+
             max_length = max(len(head.matching_scores) for head in group)
             ordered_heads = sorted(
                 group,
